@@ -95,44 +95,52 @@ class CaseGen(object):
     self.marker += 1
     return self.marker
 
-  def valid_ids(self, rows, n, replace):
+  def valid_ids(self, rows, n, replace, neg_pool, explicit_modes, hole_top=None):
+    """n ids: None, distinct negatives from neg_pool, explicit ids that are free. explicit_modes limits the
+    explicit ids to kinds whose freedom does not depend on how the engine numbers automatic rows."""
     rnd = self.rnd
     top = max(rows) if rows else 0
-    holes = [x for x in range(1, top) if x not in rows]
+    holes = [x for x in range(1, top if hole_top is None else hole_top) if x not in rows]
     ids = []
     kinds = []
     for _ in range(n):
       k = rnd.random()
+      taken = set(x for x in ids if x is not None and x > 0)
       if k < 0.35:
         ids.append(None)
         kinds.append('none')
-      elif k < 0.62:
-        pool = [x for x in range(-1, -9, -1) if x not in ids]
+        continue
+      if k < 0.62:
+        pool = [x for x in neg_pool if x not in ids]
         ids.append(rnd.choice(pool))
         kinds.append('neg')
+        continue
+      kk = rnd.random()
+      if replace:
+        cand = [x for x in sorted(rows) + [top + 1, top + 2, 1, 2, 3, rnd.randint(1, 40)] if x not in taken and x > 0]
+        x = rnd.choice(cand)
+        kind = 'existing_ok' if x in rows else 'fresh'
       else:
-        kk = rnd.random()
-        taken = set(x for x in ids if x is not None and x > 0)
-        if replace:
-          cand = [x for x in list(rows) + [top + 1, top + 2, 1, 2, 3, rnd.randint(1, 40)] if x not in taken and x > 0]
-          x = rnd.choice(cand)
-          kinds.append('existing_ok' if x in rows else 'fresh')
+        free_holes = [x for x in holes if x not in taken]
+        if free_holes and (kk < 0.4 or 'above' not in explicit_modes):
+          x = rnd.choice(free_holes)
+          kind = 'hole'
+        elif 'above' not in explicit_modes:
+          ids.append(None)
+          kinds.append('none')
+          continue
+        elif kk < 0.8:
+          x = top + rnd.randint(1, 4)
+          while x in taken:
+            x += 1
+          kind = 'above'
         else:
-          free_holes = [x for x in holes if x not in taken]
-          if free_holes and kk < 0.4:
-            x = rnd.choice(free_holes)
-            kinds.append('hole')
-          elif kk < 0.8:
-            x = top + rnd.randint(1, 4)
-            while x in taken:
-              x += 1
-            kinds.append('above')
-          else:
-            x = top + rnd.randint(20, 400)
-            while x in taken:
-              x += 1
-            kinds.append('far')
-        ids.append(x)
+          x = top + rnd.randint(20, 400)
+          while x in taken:
+            x += 1
+          kind = 'far'
+      ids.append(x)
+      kinds.append(kind)
     return ids, kinds
 
   def inject(self, ids, kinds, rows, replace, defect):
@@ -140,22 +148,21 @@ class CaseGen(object):
     rnd = self.rnd
     ids = list(ids)
     kinds = list(kinds)
-    def put(x):
+    def put(x, kind):
       if len(ids) > 1 and rnd.random() < 0.5:
         i = rnd.randrange(len(ids))
         ids[i] = x
-        kinds[i] = defect
+        kinds[i] = kind
       else:
         i = rnd.randint(0, len(ids))
         ids.insert(i, x)
-        kinds.insert(i, defect)
-      return i
+        kinds.insert(i, kind)
     if defect == 'zero_id':
-      put(0)
+      put(0, defect)
     elif defect == 'over_limit':
-      put(rnd.choice([LIMIT + 1, LIMIT + 2, 2 * LIMIT, 10 ** 9, 2 ** 31, 2 ** 40]))
+      put(rnd.choice([LIMIT + 1, LIMIT + 2, 2 * LIMIT, 10 ** 9, 2 ** 31, 2 ** 40]), defect)
     elif defect == 'existing_id':
-      put(rnd.choice(sorted(rows)))
+      put(rnd.choice(sorted(rows)), defect)
     elif defect == 'repeated_id':
       pos = [x for x in ids if x is not None and x > 0]
       if pos:
@@ -167,43 +174,47 @@ class CaseGen(object):
         i = rnd.randint(0, len(ids))
         ids.insert(i, x)
         kinds.insert(i, 'above')
-      # insert the repeat at another position
       i = rnd.randint(0, len(ids))
       ids.insert(i, x)
       kinds.insert(i, defect)
     elif defect == 'repeated_negative':
       negs = [x for x in ids if x is not None and x < 0]
-      x = rnd.choice(negs) if negs else -1
-      if not negs:
-        ids.insert(rnd.randint(0, len(ids)), x)
-        kinds.insert(0, 'neg')
+      if negs:
+        x = rnd.choice(negs)
+      else:
+        x = -1
+        i = rnd.randint(0, len(ids))
+        ids.insert(i, x)
+        kinds.insert(i, 'neg')
       i = rnd.randint(0, len(ids))
       ids.insert(i, x)
       kinds.insert(i, defect)
     elif defect == 'explicit_meets_earlier_automatic':
       top = 0 if replace else (max(rows) if rows else 0)
-      ids[:] = [None] * rnd.randint(1, 2) + ids
-      kinds[:] = ['none'] * (len(ids) - len(kinds)) + kinds
+      lead = rnd.randint(1, 2)
+      ids[:0] = [None] * lead
+      kinds[:0] = ['none'] * lead
       ids.append(top + 1)
       kinds.append(defect)
     return ids, kinds
 
-  def request(self, table, rows, want, single=None):
-    """One add/replace request. want: 'valid' or a defect class. Returns dict."""
+  def request(self, table, rows, want, allow_replace=True, bulk_only=False, neg_pool=None, explicit_modes=('hole', 'above'),
+              hole_top=None):
+    """One add/replace request against a table whose existing row ids are `rows`. want: 'valid' or a defect
+    class. Returns a dict; its 'strict' / 'lenient' entries are derived from the final id list."""
     rnd = self.rnd
-    replace = rnd.random() < 0.16 if single is None else False
-    if want == 'existing_id' and (replace or not rows):
+    neg_pool = neg_pool or list(range(-1, -9, -1))
+    replace = allow_replace and rnd.random() < 0.16
+    if want == 'existing_id':
       replace = False
       if not rows:
         want = 'zero_id'
-    one = (rnd.random() < 0.3) if single is None else single
-    n = 1 if one else rnd.randint(1, 6)
-    ids, kinds = self.valid_ids(rows, n, replace)
+    n = 1 if (rnd.random() < 0.3 and not bulk_only) else rnd.randint(1, 6)
+    ids, kinds = self.valid_ids(rows, n, replace, neg_pool, explicit_modes, hole_top)
     if want != 'valid':
       ids, kinds = self.inject(ids, kinds, rows, replace, want)
-    # The engine must see what was classified: re-derive the class from the final list.
     strict, lenient = classify(ids, rows, replace)
-    use_single = (not replace) and len(ids) == 1 and rnd.random() < 0.8
+    use_single = (not replace) and (not bulk_only) and len(ids) == 1 and rnd.random() < 0.8
     markers = [self.next_marker() for _ in ids]
     cols = {'M': markers}
     if rnd.random() < 0.7:
@@ -282,18 +293,32 @@ def table_class(rows):
   return 'holes' if len(rows) < top else 'dense'
 
 
-def check_accepted(sess, acc, S0, S1, bundle, reqs, extras, reply):
-  """All clauses for a bundle that was accepted. reqs: request dicts in bundle order with 'pos' (index in
-  the bundle); extras: follow-up expectations. Returns list of (mech, message)."""
-  from vlib import rowdoc, snapshot
+def check_accepted(acc, S0, S1, steps, reply):
+  """All clauses for a bundle that was accepted. steps = the bundle as a list of dicts in order:
+  {'kind': 'pre_update'|'req'|'update'|'pref', ...}. Returns a list of (mechanism, message)."""
+  from vlib import rowdoc
   out = []
   rows_now = {t: set(S0[t][0]) for t in ('T', 'U')}
   expected = {t: rowdoc.table_rows(S0, t, [c for c, _ in TDATA[t]]) for t in ('T', 'U')}
-  id_of_marker = {}
-  for rq in reqs:
+  pexp = []
+  for pos, st in enumerate(steps):
+    if st['kind'] == 'pre_update':
+      expected[st['table']][st['row']]['V'] = st['value']
+      continue
+    if st['kind'] in ('update', 'pref'):
+      rq = st['req']
+      if 'final' not in rq:
+        continue
+      target = rq['final'][st['index']]
+      acc.count('placeholder_followups_checked')
+      if st['kind'] == 'update':
+        expected[rq['table']][target]['V'] = st['value']
+      else:
+        pexp.append((st, target))
+      continue
+    rq = st['req']
     t = rq['table']
-    cols = [c for c, _ in TDATA[t]]
-    after = rowdoc.table_rows(S1, t, cols)
+    after = rowdoc.table_rows(S1, t, ['M'])
     by_marker = {}
     for rid, row in after.items():
       by_marker.setdefault(row['M'], []).append(rid)
@@ -301,16 +326,16 @@ def check_accepted(sess, acc, S0, S1, bundle, reqs, extras, reply):
     for m in rq['markers']:
       got = by_marker.get(float(m), [])
       if len(got) != 1:
-        out.append(('ghost_or_missing_row', 'request row with marker %s exists %d times in %s (rows %s)' % (m, len(got), t, got)))
+        out.append(('ghost_or_missing_row', 'the request row with marker %s exists %d times in %s (rows %s)' % (m, len(got), t, got)))
         ids_by_marker.append(None)
       else:
         ids_by_marker.append(got[0])
-    ret = reply.ret[rq['pos']]
+    ret = reply.ret[pos]
     if rq['action'][0] == 'AddRecord':
       ret = [ret]
     if rq['replace']:
       acc.count('replace_requests_checked')
-      if ret is not None and ret != [None] and ret != ids_by_marker:
+      if ret is not None and ret != ids_by_marker:
         out.append(('retvalue_not_the_rows', 'ReplaceTableData returned %r, the rows are %r' % (ret, ids_by_marker)))
       final = ids_by_marker
       before = set()
@@ -324,7 +349,7 @@ def check_accepted(sess, acc, S0, S1, bundle, reqs, extras, reply):
         out.append(('retvalue_not_the_rows', 'retValue %r does not name %d rows' % (ret, len(rq['ids']))))
         continue
       if ret != ids_by_marker:
-        out.append(('retvalue_not_the_rows', 'retValue %r, but the rows carrying the request\'s markers are %r' % (ret, ids_by_marker)))
+        out.append(('retvalue_not_the_rows', 'retValue %r, but the rows carrying the markers of the request are %r' % (ret, ids_by_marker)))
     if None in final:
       continue
     if len(set(final)) != len(final):
@@ -345,26 +370,7 @@ def check_accepted(sess, acc, S0, S1, bundle, reqs, extras, reply):
       for c, vals in rq['cols'].items():
         row[c] = vals[i]
       expected[t][x] = row
-      id_of_marker[rq['markers'][i]] = x
     rq['final'] = final
-  # follow-ups addressed by negative ids
-  pexp = []
-  for ex in extras:
-    rq = ex['req']
-    if 'final' not in rq:
-      continue
-    target = rq['final'][ex['index']]
-    acc.count('placeholder_followups_checked')
-    if ex['kind'] == 'update':
-      expected[rq['table']][target]['V'] = ex['value']
-    elif ex['kind'] == 'pre_update':
-      pass
-    else:
-      pexp.append((ex, target))
-  for ex in extras:
-    if ex['kind'] == 'pre_update' and ex['row'] in expected[ex['table']]:
-      # an unrelated earlier update of an existing row (kept unless the table was replaced afterwards)
-      expected[ex['table']][ex['row']]['V'] = ex['value']
   for t in ('T', 'U'):
     obs = rowdoc.table_rows(S1, t, [c for c, _ in TDATA[t]])
     for msg in rowdoc.diff_rows(expected[t], obs, t):
@@ -376,98 +382,70 @@ def check_accepted(sess, acc, S0, S1, bundle, reqs, extras, reply):
     if len(newp) != len(pexp):
       out.append(('placeholder_not_resolved', 'expected %d new rows in P, found %s' % (len(pexp), newp)))
     else:
-      for (ex, target), pr in zip(pexp, newp):
+      for (st, target), pr in zip(pexp, newp):
         if prow[pr]['R'] != target:
-          out.append(('placeholder_not_resolved', 'P[%s].R given as %s should be row %s, is %r' % (pr, ex['neg'], target, prow[pr]['R'])))
+          out.append(('placeholder_not_resolved', 'P[%s].R given as %s should be row %s, is %r' % (pr, st['neg'], target, prow[pr]['R'])))
   return out
 
 
-def run_case(sess, acc, gen, rnd, S, force=None):
-  from vlib import rowdoc
+def run_case(sess, acc, gen, rnd, S):
   from vlib.histories import shape_hash
   rows = {t: set(S[t][0]) for t in ('T', 'U')}
   t = rnd.choice(['T', 'T', 'U'])
   k = rnd.random()
-  defects = ['existing_id', 'repeated_id', 'over_limit', 'zero_id']
   if k < 0.62:
     want = 'valid'
   elif k < 0.92:
-    want = rnd.choice(defects)
+    want = rnd.choice(['existing_id', 'repeated_id', 'over_limit', 'zero_id'])
   else:
     want = rnd.choice(['repeated_negative', 'explicit_meets_earlier_automatic'])
   form = rnd.random()
-  bundle = []
-  reqs = []
-  extras = []
+  steps = []
   form_name = 'alone'
+  rq0 = None
   if form < 0.12:
     # an unrelated valid action first
     t2 = rnd.choice(['T', 'U'])
     if rows[t2]:
       r0 = rnd.choice(sorted(rows[t2]))
       v = rnd.randint(10, 99)
-      bundle.append(['UpdateRecord', t2, r0, {'V': v}])
-      extras.append({'kind': 'pre_update', 'table': t2, 'row': r0, 'value': v})
+      steps.append({'kind': 'pre_update', 'table': t2, 'row': r0, 'value': v, 'action': ['UpdateRecord', t2, r0, {'V': v}]})
       form_name = 'after_valid_action'
   elif form < 0.27:
-    # another (valid, non-replacing) request on the same table first
-    rq0 = gen.request(t, rows[t], 'valid', single=False)
-    if not rq0['strict'] and not rq0['lenient'] and not rq0['replace']:
-      rq0['pos'] = len(bundle)
-      bundle.append(rq0['action'])
-      reqs.append(rq0)
-      # The second request is generated against the rows the first one will have created, as far as
-      # the statement fixes them: explicit ids. Automatic ones are unknown here, so the second
-      # request uses ids far above or None/negative only.
+    # another valid adding request on the same table first
+    rq0 = gen.request(t, rows[t], 'valid', allow_replace=False, bulk_only=True)
+    if rq0['strict'] or rq0['lenient']:
+      rq0 = None
+    else:
+      steps.append({'kind': 'req', 'req': rq0, 'action': rq0['action']})
       form_name = 'second_request'
-  rows_for_gen = set(rows[t])
-  if form_name == 'second_request':
-    rows_for_gen |= set(x for x in reqs[0]['ids'] if x is not None and x > 0)
-  rq = gen.request(t, rows_for_gen, want)
-  if form_name == 'second_request':
-    # keep explicit ids of the second request clear of whatever the first one may have allocated
-    top = max(rows_for_gen) if rows_for_gen else 0
-    room = top + 10
-    if any(x is not None and 0 < x <= room and x not in rows[t] and x <= LIMIT and kd in ('above', 'hole', 'fresh')
-           for x, kd in zip(rq['ids'], rq['kinds'])):
-      ids = [(x + 50 if (x is not None and 0 < x <= room and kd in ('above', 'hole', 'fresh')) else x) for x, kd in zip(rq['ids'], rq['kinds'])]
-      rq['ids'] = ids
-      rq['action'][2] = ids[0] if rq['action'][0] == 'AddRecord' else ids
-      s, l = classify(ids, rows_for_gen, rq['replace'])
-      rq['strict'], rq['lenient'] = sorted(s), sorted(l)
-    if rq['replace'] or 'explicit_meets_earlier_automatic' in rq['lenient'] or 'existing_id' in rq['strict'] and False:
-      pass
-  rq['pos'] = len(bundle)
-  bundle.append(rq['action'])
-  reqs.append(rq)
+  if rq0 is not None:
+    # Which ids the first request hands out automatically is the engine's choice (only "above every
+    # existing id" is fixed), so the second request names explicit ids only where that cannot matter:
+    # holes below the old maximum, or -- as a defect -- ids known to exist by then. Its negative ids come
+    # from another pool (a re-used negative is C26's subject).
+    known = rows[t] | set(x for x in rq0['ids'] if x is not None and x > 0)
+    if want == 'explicit_meets_earlier_automatic':
+      want = 'repeated_negative'
+    rq = gen.request(t, known, want, allow_replace=False, neg_pool=list(range(-11, -19, -1)), explicit_modes=('hole',),
+                     hole_top=max(rows[t]) if rows[t] else 0)
+  else:
+    rq = gen.request(t, rows[t], want)
+  steps.append({'kind': 'req', 'req': rq, 'action': rq['action']})
   # follow-ups that address the request's negative ids
   negpos = [(i, x) for i, x in enumerate(rq['ids']) if x is not None and x < 0]
   if negpos and not rq['lenient'] and rnd.random() < 0.45:
-    used = set()
     for i, x in rnd.sample(negpos, min(len(negpos), rnd.randint(1, 2))):
-      if rnd.random() < 0.6:
+      if rnd.random() < 0.6 or t != 'T':
         v = rnd.randint(100, 999)
-        bundle.append(['UpdateRecord', t, x, {'V': v}])
-        extras.append({'kind': 'update', 'req': rq, 'index': i, 'neg': x, 'value': v})
-      elif t == 'T' and x not in used:
-        bundle.append(['AddRecord', 'P', None, {'R': x}])
-        extras.append({'kind': 'pref', 'req': rq, 'index': i, 'neg': x})
-      used.add(x)
+        steps.append({'kind': 'update', 'req': rq, 'index': i, 'neg': x, 'value': v, 'action': ['UpdateRecord', t, x, {'V': v}]})
+      else:
+        steps.append({'kind': 'pref', 'req': rq, 'index': i, 'neg': x, 'action': ['AddRecord', 'P', None, {'R': x}]})
     if form_name == 'alone':
       form_name = 'with_followups'
-  # second_request + the first one's negatives reused by the second: the later one takes the id over; keep
-  # follow-ups unambiguous by not letting both requests use the same negative
-  if form_name == 'second_request':
-    n0 = set(x for x in reqs[0]['ids'] if x is not None and x < 0)
-    if n0 & set(x for x in rq['ids'] if x is not None and x < 0):
-      extras = [e for e in extras if e['kind'] == 'pre_update']
-      bundle = [a for a in bundle if not (a[0] in ('UpdateRecord',) and a[2] < 0) and not (a[0] == 'AddRecord' and a[1] == 'P')]
-      rq['pos'] = bundle.index(rq['action'])
-
+  bundle = [st['action'] for st in steps]
   strict = rq['strict']
   lenient = rq['lenient']
-  if form_name == 'second_request' and rq['replace']:
-    form_name = 'replace_after_request'
   reply, err = sess.apply(bundle, 'case')
   S1 = sess.snap()
   kinds_key = tuple(rq['kinds'])
@@ -476,8 +454,9 @@ def run_case(sess, acc, gen, rnd, S, force=None):
     acc.count('requests_on_table_with_holes')
   acc.seen('bundle_forms', form_name)
   acc.seen('request_kinds', rq['action'][0])
-  nontrivial = bool(strict) or bool(lenient) or len(set(rq['kinds'])) > 1 or any(kd not in ('none',) for kd in rq['kinds']) or tclass != 'dense'
-  h = shape_hash(rq['action'][0], kinds_key if len(kinds_key) <= 4 else (sorted(set(kinds_key)), len(kinds_key)), strict, lenient, tclass, form_name)
+  nontrivial = bool(strict) or bool(lenient) or any(kd != 'none' for kd in rq['kinds']) or tclass != 'dense'
+  h = shape_hash(rq['action'][0], kinds_key if len(kinds_key) <= 4 else (sorted(set(kinds_key)), len(kinds_key)),
+                 strict, lenient, tclass, form_name)
   sample = {'bundle': bundle, 'rows_before': sorted(rows[t]), 'class': strict or lenient or 'valid',
             'outcome': ('rejected:' + err.cls) if err else reply.ret}
   if strict:
@@ -490,13 +469,13 @@ def run_case(sess, acc, gen, rnd, S, force=None):
           rq['action'][:3], strict, t, sorted(rows[t]), reply.ret), {'bundle': bundle, 'ret': reply.ret})
       for m in empty_record_msgs(S1):
         sess.violation('empty_record_changed', m, {'bundle': bundle})
-      acc.case(h if nontrivial else None, sample)
+      acc.case(h, sample)
       return S1
     acc.seen('rejection_classes', err.cls)
     S2 = sess.check_no_trace(S, S1, bundle, 'invalid_ids:' + err.cls)
     acc.count('empty_record_observations')
     for m in empty_record_msgs(S2):
-      sess.violation('empty_record_changed', m + ' (after rejected request)', {'bundle': bundle})
+      sess.violation('empty_record_changed', m + ' (after a rejected request)', {'bundle': bundle})
     acc.case(h, sample)
     return S2
   if err is not None:
@@ -515,9 +494,10 @@ def run_case(sess, acc, gen, rnd, S, force=None):
     acc.count('unclassified_accepted')
     for d in lenient:
       acc.count('unclassified.' + d + '.accepted')
-  msgs = check_accepted(sess, acc, S, S1, bundle, reqs, extras, reply)
-  acc.count('requests_accepted_checked', len(reqs))
-  acc.count('rows_requested', sum(len(r['ids']) for r in reqs))
+  msgs = check_accepted(acc, S, S1, steps, reply)
+  nreq = sum(1 for st in steps if st['kind'] == 'req')
+  acc.count('requests_accepted_checked', nreq)
+  acc.count('rows_requested', sum(len(st['req']['ids']) for st in steps if st['kind'] == 'req'))
   acc.count('empty_record_observations')
   for m in empty_record_msgs(S1):
     msgs.append(('empty_record_changed', m))
